@@ -251,3 +251,93 @@ package packets
 // verif:func packets.Packets.GetAll
 //@ requires C32-lock-not-held-by-this-goroutine: p.RWMutex.lheld == 0
 //@ ensures C32-lock-released-on-return: p.RWMutex.lheld == 0
+
+// ======================================================================================
+// Codec round trip (C26): leaf encoders against the decoders above, the fixed header, the acknowledgement packets
+// ======================================================================================
+// verif:func packets.encodeUint16
+//@ ensures two-bytes-big-endian: len(r0) == 2 && u16(r0, 0) == int(val)
+// verif:func packets.encodeUint32
+//@ ensures four-bytes-big-endian: len(r0) == 4 && u32(r0, 0) == int(val)
+// verif:func packets.encodeBool
+//@ ensures r0 == (b ? 1 : 0)
+// verif:func packets.encodeBytes
+//@ requires len(val) <= 65535
+//@ ensures length-prefix-then-the-bytes: len(r0) == 2 + len(val) && u16(r0, 0) == len(val) && (forall i int :: 0 <= i && i < len(val) ==> r0[2 + i] == val[i])
+// verif:func packets.encodeString
+//@ requires len(val) <= 65535
+//@ ensures length-prefix-then-the-bytes: len(r0) == 2 + len(val) && u16(r0, 0) == len(val) && (forall i int :: 0 <= i && i < len(val) ==> r0[2 + i] == val[i])
+
+// what an encoder writes is read back by the matching decoder (consequences of the two contracts; no code involved)
+// verif:lemma roundtrip_uint16
+//@ vars b []byte, v uint16, r0 uint16, r1 int, failed bool
+//@ requires len(b) == 2 && u16(b, 0) == int(v)
+//@ requires !failed ==> 0 + 2 <= len(b) && r1 == 0 + 2 && int(r0) == u16(b, 0)
+//@ requires failed ==> 0 + 2 > len(b)
+//@ ensures C26-decoder-accepts-and-returns-the-value: !failed && r0 == v && r1 == 2
+// verif:lemma roundtrip_uint32
+//@ vars b []byte, v uint32, r0 uint32, r1 int, failed bool
+//@ requires len(b) == 4 && u32(b, 0) == int(v)
+//@ requires !failed ==> 0 + 4 <= len(b) && r1 == 0 + 4 && int(r0) == u32(b, 0)
+//@ requires failed ==> 0 + 4 > len(b)
+//@ ensures C26-decoder-accepts-and-returns-the-value: !failed && r0 == v && r1 == 4
+// verif:lemma roundtrip_bytes
+//@ vars b []byte, val []byte, r0 []byte, r1 int, failed bool
+//@ requires len(val) <= 65535 && len(b) == 2 + len(val) && u16(b, 0) == len(val) && (forall i int :: 0 <= i && i < len(val) ==> b[2 + i] == val[i])
+//@ requires !failed ==> 0 + 2 <= len(b) && r1 == 0 + 2 + u16(b, 0) && r1 <= len(b) && len(r0) == u16(b, 0) && (forall i int :: 0 <= i && i < len(r0) ==> r0[i] == b[0 + 2 + i])
+//@ requires failed ==> 0 + 2 > len(b) || 0 + 2 + u16(b, 0) > len(b)
+//@ ensures C26-decoder-accepts-and-returns-the-same-bytes: !failed && r1 == len(b) && sameBytes(r0, val)
+
+// ---- fixed header: first byte (type and flags), then the remaining length as a variable byte integer ----
+// verif:func packets.FixedHeader.Encode arith=bv
+//@ requires buf != nil && 0 <= buf.blen && buf.blen <= 1099511627000 && 0 <= fh.Remaining && fh.Remaining <= 268435455
+//@ modifies buf.blen, buf.bdata
+//@ ensures C26-first-byte-is-type-and-flags: buf.bdata[old(buf.blen)] == (fh.Type << 4) | ((fh.Dup ? 1 : 0) << 3) | (fh.Qos << 1) | (fh.Retain ? 1 : 0)
+//@ ensures C26-then-the-remaining-length: buf.blen == old(buf.blen) + 1 + vlen(int64(fh.Remaining)) && varint(buf.bdata, old(buf.blen) + 1, vlen(int64(fh.Remaining))) == int64(fh.Remaining)
+//@ ensures earlier-bytes-kept: forall i int :: 0 <= i && i < old(buf.blen) ==> buf.bdata[i] == old(buf.bdata[i])
+// the header byte the encoder writes is decoded back to the same type and flags (for flag combinations the decoder accepts)
+// verif:lemma roundtrip_header_byte arith=bv
+//@ vars t byte, dup bool, qos byte, retain bool, hb byte
+//@ requires t <= 15 && qos <= 3
+//@ requires hb == (t << 4) | ((dup ? 1 : 0) << 3) | (qos << 1) | (retain ? 1 : 0)
+//@ ensures C26-type-and-publish-flags-read-back: hb >> 4 == t && ((hb & 8) != 0 <==> dup) && (hb >> 1) & 3 == qos && ((hb & 1) != 0 <==> retain)
+
+// ---- the buffer pool as the encoders use it (C41 proves the pool itself): a pooled buffer is handed out empty and is not
+// shared with any buffer the caller already holds; returning it only resets it ----
+// verif:func mempool.GetBuffer trusted
+//@ ensures r0 != nil && fresh(r0) && r0.blen == 0 && r0.rpos == 0
+// verif:func mempool.PutBuffer trusted
+//@ modifies x.blen, x.rpos, nput
+// the property block: frame only here (its contents are not under contract)
+// verif:func packets.Properties.Encode trusted
+//@ modifies b.blen, b.bdata
+// (assumption A-enc-size: a property block is shorter than 256 MiB minus the few fixed bytes of the packets that carry one)
+//@ ensures b.blen >= old(b.blen) && b.blen <= old(b.blen) + 268435000 && b.rpos == old(b.rpos)
+
+// ---- PUBACK / PUBREC / PUBREL / PUBCOMP ----
+// verif:func packets.Packet.encodePubAckRelRecComp arith=bv
+//@ requires buf != nil && 0 <= buf.blen && buf.blen <= 1099511627000 && buf.rpos == 0
+//@ modifies buf.blen, buf.bdata, pk.FixedHeader.Remaining, nput
+//@ ensures no-error: r0 == nil
+//@ ensures C26-remaining-length-equals-the-number-of-bytes-that-follow: buf.blen == old(buf.blen) + 1 + vlen(int64(pk.FixedHeader.Remaining)) + pk.FixedHeader.Remaining && varint(buf.bdata, old(buf.blen) + 1, vlen(int64(pk.FixedHeader.Remaining))) == int64(pk.FixedHeader.Remaining)
+//@ ensures C26-header-byte-is-type-and-flags: buf.bdata[old(buf.blen)] == (pk.FixedHeader.Type << 4) | ((pk.FixedHeader.Dup ? 1 : 0) << 3) | (pk.FixedHeader.Qos << 1) | (pk.FixedHeader.Retain ? 1 : 0)
+//@ ensures C26-mqtt3-acknowledgement-is-just-the-packet-identifier: pk.ProtocolVersion != 5 ==> pk.FixedHeader.Remaining == 2 && buf.bdata[old(buf.blen) + 2] == byte(pk.PacketID >> 8) && buf.bdata[old(buf.blen) + 3] == byte(pk.PacketID)
+//@ ensures earlier-bytes-kept: forall i int :: 0 <= i && i < old(buf.blen) ==> buf.bdata[i] == old(buf.bdata[i])
+
+// the four acknowledgement encoders are this one function (what WritePacket relies on: only the buffer grows)
+// verif:func packets.Packet.PubackEncode arith=bv
+//@ requires buf != nil && 0 <= buf.blen && buf.blen <= 1099511627000 && buf.rpos == 0
+//@ modifies buf.blen, buf.bdata, pk.FixedHeader.Remaining, nput
+//@ ensures buf.blen >= old(buf.blen) && buf.blen <= old(buf.blen) + 4294967295 && buf.rpos == old(buf.rpos)
+// verif:func packets.Packet.PubrecEncode arith=bv
+//@ requires buf != nil && 0 <= buf.blen && buf.blen <= 1099511627000 && buf.rpos == 0
+//@ modifies buf.blen, buf.bdata, pk.FixedHeader.Remaining, nput
+//@ ensures buf.blen >= old(buf.blen) && buf.blen <= old(buf.blen) + 4294967295 && buf.rpos == old(buf.rpos)
+// verif:func packets.Packet.PubrelEncode arith=bv
+//@ requires buf != nil && 0 <= buf.blen && buf.blen <= 1099511627000 && buf.rpos == 0
+//@ modifies buf.blen, buf.bdata, pk.FixedHeader.Remaining, nput
+//@ ensures buf.blen >= old(buf.blen) && buf.blen <= old(buf.blen) + 4294967295 && buf.rpos == old(buf.rpos)
+// verif:func packets.Packet.PubcompEncode arith=bv
+//@ requires buf != nil && 0 <= buf.blen && buf.blen <= 1099511627000 && buf.rpos == 0
+//@ modifies buf.blen, buf.bdata, pk.FixedHeader.Remaining, nput
+//@ ensures buf.blen >= old(buf.blen) && buf.blen <= old(buf.blen) + 4294967295 && buf.rpos == old(buf.rpos)
